@@ -173,7 +173,13 @@ func builtinMathRandom(call FunctionCall) Value {
 
 func builtinMathRound(call FunctionCall) Value {
 	number := call.Argument(0).float64()
-	value := math.Floor(number + 0.5)
+	// 15.8.2.15: the closest integer, ties towards +Infinity. number+0.5 is not
+	// always representable (0.49999999999999994, odd integers >= 2^52); the
+	// difference number-floor(number) always is.
+	value := math.Floor(number)
+	if number-value >= 0.5 {
+		value++
+	}
 	if value == 0 {
 		value = math.Copysign(0, number)
 	}
